@@ -356,7 +356,18 @@ def check_destroy(rep, db, f, inst, vals):
         # every per-object standard container (by TYPE): the registered keys and the symbol caches; the app-pointer table is C15's
         # the per-object containers the statement names, identified by TYPE: the registered keys (a sequence of void*) and the symbol
         # caches (name -> void*); the app-pointer table is C15's, the profiling log (transition_times) is the user's to clear
+        def is_key(tn):
+            # an opaque key: void*, or a small struct that only wraps such pointers
+            if tn.strip() == "void *":
+                return True
+            r_ = next((r_ for r_ in db.records if r_.get("n_full") == tn.strip() and not r_.get("dep")), None)
+            return r_ is not None and 1 <= len(r_.get("fields") or []) <= 2 and all((fl["t"] or {}).get("k") == "ptr" for fl in r_["fields"])
+
         def is_registry(c):
+            import re
+            m_ = re.match(r"^std::(vector|set|unordered_set|list|deque)<(.*?)(, std::allocator<.*>)?>$", c)
+            if m_ and is_key(m_.group(2)):
+                return True
             return c.startswith(("std::vector<void *>", "std::set<void *>", "std::unordered_set<void *>", "std::list<void *>")) or \
                 (c.startswith(("std::map<", "std::unordered_map<")) and c.rstrip("> ").endswith("void *") and "string" in c)
         conts = [fl["n"] for fl in rec.get("fields", []) if is_registry((fl["t"] or {}).get("c") or "")]
